@@ -252,11 +252,15 @@ def propsIndent (p : Props) : Nat :=
     if n > 0 then n.toNat else 8
   else 0
 
-/-- `propsOptions`: `none` = the Go code panics (`syntax.Variant(LangAuto)`).
-    Second component: `validLang` (shell_variant was set to a known name). -/
+/-- `propsOptions`.  `shell_variant` set to a known name takes precedence over the detected
+    language, except `auto`, which keeps the detected language (as for the `-ln` flag).
+    `none` = the Go code panics (`syntax.Variant(LangAuto)`): only possible if the detected language
+    itself were `auto`, which language selection never produces (`no_panic`).
+    Second component: `validLang` (`Set` succeeded — also for `auto`). -/
 def propsOptions (fileLang : Lang) (p : Props) : Option (Opts × Bool) :=
   let sv := langOfName (pget p (asc "shell_variant"))
-  let lang := sv.getD fileLang
+  let set := sv.getD fileLang                             -- lang.Set(...)
+  let lang := if set = .auto then fileLang else set       -- `auto` keeps the detected language
   if lang = .auto then none else
   let mn := ptrue p "minify"
   some ({ lang := lang, indent := propsIndent p
